@@ -99,7 +99,14 @@ def opCompat (inp impl : Json) : Except String Resp := do
   let ja ← parseReqs (← fld inp "a")
   let jb ← parseReqs (← fld inp "b")
   let allowWK ← boolF inp "allowWellKnown"
-  let U := if allowWK then Karp.Gen.Labels.wellKnownLabels else []
+  -- the live `v1.WellKnownLabels` of the harness process (cloud providers extend the set at run time); it must contain the
+  -- labels the source declares
+  let runtimeWK ← match fldOpt inp "wellKnown" with
+    | some j => strList j
+    | none => pure Karp.Gen.Labels.wellKnownLabels
+  if !(Karp.Gen.Labels.wellKnownLabels.all runtimeWK.contains) then
+    return { model := none, spec := some false, why := "v1.WellKnownLabels at run time lacks a label the source declares" }
+  let U := if allowWK then runtimeWK else []
   let panicResp : Resp := { model := some (jObj [("panic", jStr "index-out-of-range")]), spec := some true }
   let A ← match buildReqs ja with | .ok r => pure r | .error "panic" => return panicResp | .error e => throw e
   let B ← match buildReqs jb with | .ok r => pure r | .error "panic" => return panicResp | .error e => throw e
@@ -121,6 +128,33 @@ def opCompat (inp impl : Json) : Except String Resp := do
     | .error e => (false, "implementation output unusable (panic?): " ++ e)
   pure { model := some model, spec := some ok, why := why }
 
+/-- `c12.valuemap`: the constructor under a provider-registered value table.  Model: translate the operands by the
+    table entry of the NORMALIZED key, then `Req.new`; spec: `Has` = Kubernetes semantics on the translated operands. -/
+def opValueMap (inp impl : Json) : Except String Resp := do
+  let key ← strF inp "key"
+  let op := parseOp (← strF inp "op")
+  let values ← strList (← fld inp "values")
+  let probes ← strList (← fld inp "probes")
+  let tableJ ← fld inp "table"
+  let nk := normalizeKey key
+  let entry : List (String × String) ← match fldOpt tableJ nk with
+    | none => pure []
+    | some (.obj kvs) => kvs.toList.mapM (fun (a, b) => do pure (a, ← asStr b))
+    | some _ => throw "bad table"
+  let translated := values.map (fun v => (entry.lookup v).getD v)
+  match Req.new key op none translated with
+  | .error _ => pure { model := some (jObj [("panic", jStr "index-out-of-range")]), spec := some true }
+  | .ok r =>
+    let model := jObj [("snap", snap r), ("has", jArr (probes.map (fun v => jBool (r.has v))))]
+    let (ok, why) ← match fldOpt impl "has" with
+      | none => pure (false, "implementation produced no result (panic?)")
+      | some h => do
+        let hs ← boolList h
+        match (probes.zip hs).find? (fun (v, b) => b != k8sMatch op translated (some v)) with
+        | none => pure (true, "")
+        | some (v, b) => pure (false, s!"Has({v.quote}) = {b}, but {opName op} over the operands translated by the table of {nk} ({translated}) gives {!b}")
+    pure { model := some model, spec := some ok, why := why }
+
 /-- `c12.atoi`: the model's `atoi` against `strconv.Atoi` -/
 def opAtoi (inp _impl : Json) : Except String Resp := do
   let ss ← strList (← fld inp "strings")
@@ -133,6 +167,7 @@ def handle : Handler := fun op inp impl =>
   | "c12.pair" => opPair inp impl
   | "c12.compat" => opCompat inp impl
   | "c12.atoi" => opAtoi inp impl
+  | "c12.valuemap" => opValueMap inp impl
   | _ => .error s!"unknown op {op}"
 
 end Karp.Driver.C12
